@@ -3,13 +3,8 @@ From Coq Require Import List NArith Bool Arith.
 From LTV.C09 Require Import ParamsGen Model.
 Import ListNotations.
 
-(* throttle: more than [count] chunks and more than [bytes] mapped; piece length window of the
-   constructor (so a piece always has at least one byte and fits uint32) *)
-Definition params_ok : bool :=
-  (0 <? Params.c09_throttle_count)%N && (0 <? Params.c09_throttle_bytes)%N &&
-  (Params.c09_throttle_bytes <? 4294967296)%N &&
-  (0 <? Params.c09_piece_len_min_excl)%N && (Params.c09_piece_len_min_excl <? Params.c09_piece_len_max)%N &&
-  (Params.c09_piece_len_max <? 4294967296)%N.
+(* the probed throttle never fires with nothing outstanding *)
+Definition params_ok : bool := (0 <? Params.c09_throttle_small)%N.
 
 Lemma params_ok_now : params_ok = true.
 Proof. vm_compute. reflexivity. Qed.
